@@ -51,7 +51,7 @@ let () =
     | [id; nss; ex] ->
         let binds = parse_ns nss in
         let ns p = (try Some (snd (List.find (fun (k, _) -> str_eqb k p) binds)) with Not_found -> None) in
-        (match compile ns (units_of_hex ex) with
+        (match compile_here ns (units_of_hex ex) with
          | Ok e -> Printf.printf "%s ok %s\n" id (sx e)
          | Err -> Printf.printf "%s err\n" id
          | Fuel -> Printf.printf "%s fuel\n" id)
